@@ -302,7 +302,15 @@ pub fn examine_program(text: &str, origin: &str, seed: u64, report: &mut Report)
                     .map(|c| c.name.node.clone())
                     .chain(src_ir.global_registry.iter().filter(|g| g.storage_class == ir::GlobalStorage::Extern).map(|g| g.name.node.clone()))
                     .collect();
-                let have: BTreeSet<String> = have.into_iter().filter(|h| want.contains(h) || !resource_names.contains(h)).collect();
+                // (a resource whose name had to be changed arrives as <name>_N as well)
+                let is_resource = |h: &String| {
+                    resource_names.contains(h)
+                        || match h.rfind('_') {
+                            Some(pos) => pos + 1 < h.len() && h[pos + 1..].chars().all(|c| c.is_ascii_digit()) && resource_names.contains(&h[..pos]),
+                            None => false,
+                        }
+                };
+                let have: BTreeSet<String> = have.into_iter().filter(|h| want.contains(h) || !is_resource(h)).collect();
                 if have != want {
                     let missing: Vec<&String> = want.difference(&have).collect();
                     let extra: Vec<&String> = have.difference(&want).collect();
